@@ -848,7 +848,7 @@ example : chanView (seqWorld cfg [(2, str "JOIN #l,#l"), (3, str "JOIN #l")] jw)
 set_option maxRecDepth 8192 in
 open Demo in
 example : (handleLine cfg 3 (str "JOIN #l") { w := seqWorld cfg [(2, str "JOIN #l,#l")] jw }).direct =
-    [str ":irc.irc 471 c #l :Cannot join channel (+l)"] := by decide
+    [(str ":irc.irc " ++ Reply.ErrChannelIsFull471 (client := str "c") (channel := str "#l"))] := by decide
 
 set_option maxRecDepth 8192 in
 open Demo in
